@@ -810,7 +810,9 @@ def _desugar_factors_with_weights(design: List[Factor],
         for f in weighted:
             # Adds to `replacements`:
             cast(SimpleFactor, f).desugar_weights(replacements)
-        for f in design:
+        # A derived factor can be listed before a derived factor that it depends on,
+        # so rewrite them in order of dependency depth
+        for f in sorted(design, key=lambda f: f._get_depth()):
             if isinstance(f, DerivedFactor):
                 # Uses `replacements`:
                 f.desugar_for_weights(replacements)
